@@ -85,6 +85,20 @@ TRUSTED = [
 GROUP = 99
 
 
+_FAMILY_SEEN = {}
+
+
+def _violation(ctx, case, what, family=None):
+    """record a property violation; a known input family is recorded a few times
+    only (and counted), so that it cannot crowd out a NEW violation's replay"""
+    if family is not None:
+        ctx.count("finding:" + family)
+        _FAMILY_SEEN[family] = _FAMILY_SEEN.get(family, 0) + 1
+        if _FAMILY_SEEN[family] > 3:
+            return
+    ctx.violation(case, what, family=family)
+
+
 # ----------------------------------------------------------------------
 # encoding for the driver
 def enc(s):
@@ -617,7 +631,7 @@ def split_exc(pats):
 def oracle_list(ctx, op, pats, name, got, case):
     """the property's predicate on the real result `got` (canonical string)"""
     if got.startswith("E:"):
-        ctx.violation(case, "in-grammar pattern list raised %s" % got)
+        _violation(ctx, case, "in-grammar pattern list raised %s" % got)
         return False
     res = None if got == "N" else dec(got[2:])
     if op in ("glob", "ord"):
@@ -625,17 +639,17 @@ def oracle_list(ctx, op, pats, name, got, case):
         matching = [p for p in norm if ref_match(p, name)]
         if res is None:
             if matching:
-                ctx.violation(case, "%s: not ignored although %r matches %r" % (op, matching[0], name))
+                _violation(ctx, case, "%s: not ignored although %r matches %r" % (op, matching[0], name))
                 return False
         else:
             if res not in norm:
-                ctx.violation(case, "%s: reported %r is not one of the patterns" % (op, res))
+                _violation(ctx, case, "%s: reported %r is not one of the patterns" % (op, res))
                 return False
             if res not in matching:
-                ctx.violation(case, "%s: reported %r does not match %r" % (op, res, name))
+                _violation(ctx, case, "%s: reported %r does not match %r" % (op, res, name))
                 return False
         if op == "ord" and matching and res != matching[0]:
-            ctx.violation(case, "ordered: reported %r, first matching is %r" % (res, matching[0]))
+            _violation(ctx, case, "ordered: reported %r, first matching is %r" % (res, matching[0]))
             return False
         return bool(matching)
     p0, p1, p2 = split_exc(pats)
@@ -653,7 +667,7 @@ def oracle_list(ctx, op, pats, name, got, case):
         ok = res is None
         want = "None (nothing matches)"
     if not ok:
-        ctx.violation(case, "exception precedence: %r on %r gave %r, expected %s" % (
+        _violation(ctx, case, "exception precedence: %r on %r gave %r, expected %s" % (
             pats if len(pats) < 12 else "<%d patterns>" % len(pats), name, res, want))
     return bool(m[0] or m[1] or m[2])
 
@@ -695,7 +709,7 @@ def oracle_padding(ctx, op, pats, name, got, case, rng_k):
                     return t[2:] if (op == "exc" and t.startswith("!!")) else t
                 a, b = body(got), body(got2)
                 fam = ext_regroup_family(pats, name, a, b)
-                ctx.violation(dict(case, pad=dict(kind=kind, n=rng_k, where=where)),
+                _violation(ctx, dict(case, pad=dict(kind=kind, n=rng_k, where=where)),
                               "result depends on the number of patterns: %s gives %s, with %d never-matching %s "
                               "patterns at the %s %s" % (op, _pp(got), rng_k, kind, where, _pp(got2)), family=fam)
                 return
@@ -754,7 +768,7 @@ def run_lists(ctx, n_small, n_big, n_mal):
         try:
             m = _Matchers(op, pats)
         except Exception as e:  # construction is lazy; nothing should raise here
-            ctx.violation(dict(op=op, pats=pats), "constructor raised %r" % (e,))
+            _violation(ctx, dict(op=op, pats=pats), "constructor raised %r" % (e,))
             continue
         for name in names:
             case = dict(op=op, pats=pats, name=name)
@@ -765,7 +779,7 @@ def run_lists(ctx, n_small, n_big, n_mal):
                 # malformed stream: accept/reject only
                 ctx.count("malformed:" + ("raised" if got.startswith("E:") else "answered"))
                 if got.startswith("E:") and got != "E:InvalidPattern":
-                    ctx.violation(case, "match raised %s" % got[2:])
+                    _violation(ctx, case, "match raised %s" % got[2:])
                 if got.startswith("S "):
                     res = dec(got[2:])
                     allowed = set()
@@ -778,7 +792,7 @@ def run_lists(ctx, n_small, n_big, n_mal):
                         else:
                             allowed.add(ref_normalize(p))
                     if res not in allowed:
-                        ctx.violation(case, "reported %r is not one of the patterns" % (res,))
+                        _violation(ctx, case, "reported %r is not one of the patterns" % (res,))
                 ctx.case(case, nontrivial=False)
                 cases.append(case)
                 lines.append(_line(op, pats, name))
@@ -811,12 +825,12 @@ def run_norm(ctx, n):
             p += rng.choice(["/", "//", "\\", "/\\/"])
         np_ = globbing.normalize_pattern(p)
         if globbing.normalize_pattern(np_) != np_:
-            ctx.violation(dict(op="norm", pat=p), "normalize_pattern not idempotent on %r" % p)
+            _violation(ctx, dict(op="norm", pat=p), "normalize_pattern not idempotent on %r" % p)
         if np_ != ref_normalize(p):
-            ctx.violation(dict(op="norm", pat=p), "normalize_pattern(%r) = %r, documented %r" % (p, np_, ref_normalize(p)))
+            _violation(ctx, dict(op="norm", pat=p), "normalize_pattern(%r) = %r, documented %r" % (p, np_, ref_normalize(p)))
         k = globbing.Globster.identify(np_)
         if k != ref_kind(np_):
-            ctx.violation(dict(op="ident", pat=p), "identify(%r) = %s, documented %s" % (np_, k, ref_kind(np_)))
+            _violation(ctx, dict(op="ident", pat=p), "identify(%r) = %s, documented %s" % (np_, k, ref_kind(np_)))
         ctx.case(dict(op="norm", pat=p), nontrivial=np_ != p)
         ctx.count("kind:" + k)
         for op, out in (("norm", enc(np_)), ("ident", k)):
@@ -876,10 +890,10 @@ def run_tree(ctx, n):
         missing = [p for p in want if p not in lst]
         case0 = dict(op="tree", text=text, names=names)
         if missing:
-            ctx.violation(case0, ".bzrignore pattern(s) %r missing from the tree's ignore list" % (missing,))
+            _violation(ctx, case0, ".bzrignore pattern(s) %r missing from the tree's ignore list" % (missing,))
         extra = [p for p in lst if p not in want and p.startswith("# ")]
         if extra:
-            ctx.violation(case0, "comment line(s) %r taken as patterns" % (extra,))
+            _violation(ctx, case0, "comment line(s) %r taken as patterns" % (extra,))
         for name, got in zip(names, res):
             case = dict(op="tree", text=text, name=name, order=lst)
             hit = oracle_list(ctx, "exc", lst, name, got, case)
@@ -920,7 +934,7 @@ def _replay_one(ctx, case):
         np_ = globbing.normalize_pattern(p)
         impl = enc(np_) if op == "norm" else globbing.Globster.identify(np_)
         if np_ != ref_normalize(p):
-            ctx.violation(case, "normalize_pattern(%r) = %r, documented %r" % (p, np_, ref_normalize(p)))
+            _violation(ctx, case, "normalize_pattern(%r) = %r, documented %r" % (p, np_, ref_normalize(p)))
         model = ctx.model(["%s %s" % (op, enc(p))])[0]
         return dict(impl=impl, model=model)
     if op == "tree":
